@@ -141,8 +141,8 @@ def text_tokens(seeds, cap=14):
                     seps.append(t)
             elif t not in toks and len(t) <= 40:
                 toks.append(t)
-    base = seps[:5] + toks[:cap - 9 if cap > 9 else 2]
-    for extra in (b'"', b'\xc3', b'\x00', b'1' * 40):
+    base = seps[:5] + toks[:cap - 10 if cap > 10 else 2]
+    for extra in (b'0', b'"', b'\xc3', b'\x00', b'1' * 40):
         if extra not in base:
             base.append(extra)
     return base[:cap]
